@@ -270,6 +270,111 @@ def gen_arg_list(rng, n):
     return kind, out
 
 
+# --------------------------------------------------------------------------
+# tree cases (see harness/hx-sort/src/tree.rs for the item format)
+# --------------------------------------------------------------------------
+
+def enc2(s):
+    if s == "":
+        return "%_"
+    out = []
+    for b in s.encode("utf-8"):
+        ch = chr(b)
+        if b < 128 and (ch.isalnum() or ch in "_.-"):
+            out.append(ch)
+        else:
+            out.append("%%%02X" % b)
+    return "".join(out)
+
+
+TYPE_TABLE = ["u8", "u16", "u32", "i64", "String", "Vec<u8>", "&str", "T1", "T2", "T10", "T02", "Vec<alloc::string::String>"]
+ARGS_TABLE = [["10", "9", "1", "100", "2"], ["1.5", "1.10", "1.5a", "abc", "-3"], ["b", "a", "c"], ["0", "-0", "-0.0", "00"],
+              ["x2", "x10", "x1", "x02"], ["1e3", "999", "inf", "nan", "1000.5", "-inf"]]
+MOD_NAMES = ["m", "m1", "m2", "m10", "m02", "a", "B", "r#mod", "r#a", "zz", "m_1", "M"]
+BENCH_NAMES = ["b1", "b01", "b2", "b10", "b010", "a", "A", "bench", "x", "é", "b 1", "b", "c9", "c10", "c09", "z", "_", "m1", "0", "00", "1"]
+FILES = ["a.rs", "b.rs", "src/lib.rs", "src/a.rs"]
+
+
+def gen_tree_case(rng):
+    """One forest of entries: plain benches in nested modules, bench groups on modules, generic groups."""
+    mods = [("crate",)]
+    for _ in range(rng.randrange(0, 6)):
+        parent = rng.choice(mods)
+        if len(parent) >= 3:
+            continue
+        name = rng.choice(MOD_NAMES)
+        disp = name[2:] if name.startswith("r#") else name
+        sib_disp = {(m[-1][2:] if m[-1].startswith("r#") else m[-1]) for m in mods if m[:-1] == parent}
+        if disp in sib_disp:
+            continue
+        mods.append(parent + (name,))
+    items = []
+    used_leaf = {}
+    used_parent = {m: set() for m in mods}
+    for m in mods:
+        if len(m) > 1:
+            used_parent[m[:-1]].add(m[-1][2:] if m[-1].startswith("r#") else m[-1])
+    shared_loc = (rng.choice(FILES), rng.randrange(1, 30), rng.choice([1, 5]))
+    has_leaf = set()
+    nb = rng.randrange(1, 9)
+    for _ in range(nb):
+        m = rng.choice(mods)
+        name = rng.choice(BENCH_NAMES)
+        if name in used_leaf.setdefault(m, set()):
+            continue
+        used_leaf[m].add(name)
+        has_leaf.add(m)
+        loc = shared_loc if rng.random() < 0.35 else (rng.choice(FILES), rng.randrange(1, 30), rng.choice([1, 5, 9]))
+        raw = name if rng.random() < 0.7 else "f%d" % len(items)
+        args = "-"
+        if rng.random() < 0.25:
+            k = rng.randrange(len(ARGS_TABLE))
+            args = "%d=%s" % (k, ",".join(enc2(a) for a in ARGS_TABLE[k]))
+        items.append(["B", None, "::".join(m), name, raw, loc, args])
+    # bench groups on modules that exist as parents (only those with leaves below appear in the tree)
+    gline = 100
+    for m in mods[1:]:
+        if rng.random() < 0.4:
+            disp = m[-1][2:] if m[-1].startswith("r#") else m[-1]
+            if rng.random() < 0.4:
+                cand = rng.choice(["G1", "g01", "grp", "Z", "a0"])
+                if cand not in used_parent[m[:-1]]:
+                    used_parent[m[:-1]].discard(disp)
+                    used_parent[m[:-1]].add(cand)
+                    disp = cand
+            gline += 1
+            items.append(["G", None, "::".join(m[:-1]), disp, m[-1], (rng.choice(FILES), gline, 1), "-"])
+    # generic groups
+    for gi in range(rng.choice([0, 0, 1, 1, 2])):
+        m = rng.choice(mods)
+        raw = "gen%d" % gi
+        if raw in used_parent[m]:
+            continue
+        used_parent[m].add(raw)
+        gline += 1
+        spec = []
+        mode = rng.choice(["t", "c", "tc"])
+        if "t" in mode:
+            idx = rng.sample(range(len(TYPE_TABLE)), rng.randrange(1, 5))
+            spec.append("t:" + ",".join("%d=%s" % (i, enc2(TYPE_TABLE[i])) for i in idx))
+        if "c" in mode:
+            if rng.random() < 0.7:
+                vals = rng.sample([-10, -2, -1, 0, 1, 2, 9, 10, 11, 100, 20, 3], rng.randrange(1, 6))
+                spec.append("c:i:" + ",".join("%d=%s" % (v, enc2(str(v))) for v in vals))
+            else:
+                vals = rng.sample([ord("a"), ord("Z"), ord("1"), ord("9"), 0xE9, 0x4E2D, ord("_"), ord("b")], rng.randrange(1, 5))
+                spec.append("c:c:" + ",".join("%d=%s" % (v, enc2(chr(v))) for v in vals))
+        items.append(["G", None, "::".join(m), raw, raw, (rng.choice(FILES), gline, 1), "!".join(spec)])
+    rng.shuffle(items)
+    ranks = list(range(len(items)))
+    rng.shuffle(ranks)
+    toks = []
+    for it, r in zip(items, ranks):
+        loc = it[5]
+        toks.append(";".join([it[0], str(r), enc2(it[2]), enc2(it[3]), enc2(it[4]), enc2(loc[0]), str(loc[1]), str(loc[2]), it[6]]))
+    return toks
+
+
 def valid_name(s):
     return "\n" not in s
 
@@ -368,9 +473,30 @@ def streams(tier, rng):
         ident = [str(i) for i in range(len(p))]
         return p != ident and p != ident[::-1]
 
+    # ---- tree ----
+    n_tree = 400 if quick else 10000
+    tree_cases = list(corpus.get("tree", []))
+    hist_tree = {"corpus": len(tree_cases), "items<=4": 0, "items>4": 0, "with-generic-group": 0, "with-args": 0}
+    while len(tree_cases) < n_tree:
+        toks = gen_tree_case(rng)
+        if not toks:
+            continue
+        hist_tree["items>4" if len(toks) > 4 else "items<=4"] += 1
+        if any(";t:" in t or ";c:" in t for t in toks):
+            hist_tree["with-generic-group"] += 1
+        if any(t.startswith("B;") and not t.endswith(";-") for t in toks):
+            hist_tree["with-args"] += 1
+        attr = rng.choice(ATTRS)
+        for rev in (0, 1):
+            tree_cases.append(f"{attr} {rev} " + " ".join(toks))
+
+    def nt_tree(c, m):
+        return len(c.split(" ")) >= 5 and not m.startswith("panic")
+
     out = [
         Stream("natural-order", "nat", nat, nontrivial=nt_nat, hist=hist_nat),
         Stream("arg-comparator", "cmp", cmp_cases, nontrivial=nt_cmp, hist=hist_cmp),
         Stream("arg-sort", "sort", sort_cases, nontrivial=nt_sort, hist=hist_sort),
+        Stream("tree-sibling-order", "tree", tree_cases, nontrivial=nt_tree, hist=hist_tree),
     ]
     return out
